@@ -205,6 +205,16 @@ pub fn scenario(prog: &str, enabled: bool, cache: usize) -> Scenario {
     }
 }
 
+/// Plugins configured at both levels: the pool's own section (the usual tables and intercept rule) replaces the
+/// general one (which lists another table and has no intercept rule).
+pub fn scenario_both_levels(prog: &str, cache: usize) -> Scenario {
+    let mut sc = scenario(prog, true, cache);
+    sc.toml = sc.toml.replace("[plugins.", "[pools.db.plugins.");
+    sc.toml.push_str("\n[plugins.table_access]\nenabled = true\ntables = [\"audit_log\"]\n\n[plugins.intercept]\nenabled = true\n\n[plugins.intercept.queries.0]\nquery = \"select 42\"\nschema = [[\"x\", \"text\"]]\nresult = [[\"general\"]]\n");
+    sc.name = format!("{} levels=general+pool", sc.name);
+    sc
+}
+
 pub fn oracle(sc: &Scenario, out: &Outcome) -> Vec<Violation> {
     let log = &out.log;
     let mut vs = Vec::new();
@@ -214,6 +224,10 @@ pub fn oracle(sc: &Scenario, out: &Outcome) -> Vec<Violation> {
     let ctx = format!("prog={}:cache={}", prog, cache);
     if out.blocked {
         vs.push(v("C19.blocked", format!("C19.blocked:{}", ctx), blocked_note(log).unwrap_or_default()));
+    }
+    if let Some(e) = &out.init_error {
+        vs.push(v("C19.scenario-did-not-start", format!("C19.scenario-did-not-start:{}", ctx), format!("the pooler refused the scenario's configuration: {}", e)));
+        return vs;
     }
     let mentions_listed = |t: &str| t.contains("FROM secret") || t.contains("\"pg_user\"");
     let mut got_denied_text = 0;
@@ -338,12 +352,17 @@ pub fn build(tier: &str) -> SimCheck {
             }
         }
     }
+    for prog in ["q-denied", "ext-denied", "intercept", "ext-intercept", "named-denied-then-bind"] {
+        for cache in [0usize, 8] {
+            scenarios.push(scenario_both_levels(prog, cache));
+        }
+    }
     SimCheck {
         scenarios,
         oracle: Box::new(oracle),
         bound: 0,
         limits: Limits::default(),
-        rule: "sim: 17 programs (denied simple query, denied part first/last of a multi-statement query, denied extended batch, denied + allowed statements in one batch in both orders, inside a transaction over both protocols, denied named statement bound later, intercept over the simple protocol, over the extended protocol outside / inside a transaction / after an allowed batch, denied Parse abandoned, a table listed by a RELOAD while the client is connected and idle then named over the simple / extended protocol, or named while the pool is paused and listed by a RELOAD during the pause) x plugins on/off x statement caching off/on; then a second client and a pooler-state probe".into(),
+        rule: "sim: 17 programs (denied simple query, denied part first/last of a multi-statement query, denied extended batch, denied + allowed statements in one batch in both orders, inside a transaction over both protocols, denied named statement bound later, intercept over the simple protocol, over the extended protocol outside / inside a transaction / after an allowed batch, denied Parse abandoned, a table listed by a RELOAD while the client is connected and idle then named over the simple / extended protocol, or named while the pool is paused and listed by a RELOAD during the pause) x plugins on/off x statement caching off/on; also with plugins configured at both levels (the pool's own section replaces the general one); then a second client and a pooler-state probe".into(),
         assumptions: vec!["denied text recognised on the backend by the listed table reference it contains".into()],
     }
 }
